@@ -118,6 +118,7 @@ theorem seqStep_inv {g : Graph V} (hinv : Inv F g) (c : Call V) : Inv F (seqStep
     simp only [seqStep]
     cases hp : g p <;> exact hinv
   | artifact i => exact (Eval_ok i g hinv).inv
+  | updateRejected p => exact hinv
 
 theorem replay_inv {g : Graph V} (hinv : Inv F g) (cs : List (Call V)) : Inv F (replay F g cs).1 := by
   induction cs generalizing g with
@@ -137,6 +138,7 @@ theorem seqStep_static {g : Graph V} (c : Call V) (h : ∀ p v, c ≠ .update p 
     simp only [seqStep]
     cases g p <;> exact SameStatic.refl g
   | artifact i => exact Eval_static F g i
+  | updateRejected p => exact SameStatic.refl g
 
 /-! ### the concurrent system: invariant -/
 
@@ -430,6 +432,7 @@ theorem seqStep_param {g : Graph V} {p : Nat} {x : V} {n : Nat} (hp : g p = .par
     have := Eval_static F g i p
     rw [hp] at this
     exact ⟨n, by simp [seqStep, lastUpd, StaticEq.param_left this]⟩
+  | updateRejected q => exact ⟨n, by simp [seqStep, lastUpd, hp]⟩
 
 theorem replay_param {g : Graph V} {p : Nat} {x : V} {n : Nat} (hp : g p = .param x n) (cs : List (Call V)) :
     ∃ n', (replay F g cs).1 p = .param ((lastUpd cs p).getD x) n' := by
@@ -449,6 +452,7 @@ theorem replay_param {g : Graph V} {p : Nat} {x : V} {n : Nat} (hp : g p = .para
       | update q v => by_cases hq : q = p <;> simp [hq]
       | paramData q => simp
       | artifact i => simp
+      | updateRejected q => simp
 
 /-! ### the fine-grained locked system -/
 
